@@ -3,6 +3,7 @@
 specs/UrlEnc.tla (byte-level reference: UTF-8, RFC 3986 percent-coding, split on raw `&`/`=`; ohkami's section walker),
 MC_UrlEnc (spec against itself + walker against oracle), UrlEncGen (scenarios), Trace_UrlEnc (verdicts),
 harness/src/urlenc.rs (real to_string / from_bytes / Request::query)."""
+import hashlib, json
 from vlib import finish, standard_pipeline, standard_replay
 
 RULE = ("TLC enumerates (rt) every value of a 13-type catalogue with strings over 16 character classes, (dec) wire texts with "
@@ -13,7 +14,14 @@ RULE = ("TLC enumerates (rt) every value of a 13-type catalogue with strings ove
 
 SPECIAL_SYMS = {"#min", "#max", "#nan", "#inf", "#-inf", "#-0", "#dark_red", "#minpos"}
 
+def _key(s):
+    return hashlib.sha1(json.dumps({k: v for k, v in s.items() if k not in ("id", "seed", "random")}, sort_keys=True).encode()).hexdigest()
+
 def nontrivial(o):
+    """key (content hash) of the scenario when it is non-trivial by RULE, else None: distinct scenarios are counted, not ids"""
+    return _key(o["scn"]) if _nontrivial(o) else None
+
+def _nontrivial(o):
     s = o["scn"]
     if s["mode"] == "rt":
         if s["ty"] in ("Map", "Opt", "OptEnd", "SeqS", "SeqN"):
